@@ -40,7 +40,9 @@ func unhexs(h []string) [][]byte {
 	return out
 }
 
-var c01Hostile = []string{"", "a\r\nb", "\r\n", "\x00\xff\xfe", "$5\r\nhello\r\n", "+OK\r\n-ERR x\r\n", "*2\r\n", "\xc3\x28", "caf\xc3\xa9", "plain", "0", "-1"}
+var c01Hostile = []string{"", "a\r\nb", "\r\n", "\x00\xff\xfe", "$5\r\nhello\r\n", "+OK\r\n-ERR x\r\n", "*2\r\n", "\xc3\x28", "caf\xc3\xa9", "plain", "0", "-1",
+	// well-formed multi-byte UTF-8: lengths are bytes, not characters
+	"\xc3\xa9", "\xe2\x82\xacuro", "\xe6\x97\xa5\xe6\x9c\xac\xe8\xaa\x9e", "a\xf0\x9f\x98\x80b\r\n", "h\xc3\xa9\xe2\x82\xac\xf0\x9f\x98\x80\x00\xff"}
 
 func genC01Pipeline(g *rand.Rand, n int, big bool) [][]string {
 	val := func() string {
